@@ -10,6 +10,7 @@ var Registry = map[string]func() int{
 	"C02": C02,
 	"C19": C19,
 	"C13": C13,
+	"C09": C09,
 }
 
 func IDs() []string {
